@@ -1,6 +1,7 @@
 """C09: QoS 2 sender order - PUBREL only after PUBREC, no PUBLISH again after PUBREL."""
 from ..model import AnalysisError
 from ..terms import SELF, FAC, NONE, show, is_const, mentions, subterms
+from ..fieldroles import is_alarm_handle
 from ..catalogue import catalogue, is_effect
 from .common import where, cls_short, contexts, capabilities, types, short, written_object, honoured
 from .flows import post_dispatch, ack_cells, elem_reg
@@ -80,7 +81,7 @@ def check(ctx):
                            construct="%s/PUBREC/no-pubrel" % lk.func, msg="no PUBREL written on the PUBREC hit path")
                     continue
                 first = evs.index(ws[0])
-                cn = [e for e in evs[:first] if e.kind == "CANCEL" and e.a["handle"] == ("attr", el, "alarm")]
+                cn = [e for e in evs[:first] if e.kind == "CANCEL" and is_alarm_handle(e.a["handle"], el)]
                 un = [e for e in evs[:first] if e.kind == "UNREG" and e.a["reg"] == "windowPublish" and e.a["key"] == lk.a["key"]]
                 ctx.ob("Q-ORDER", "%s PUBLISH timer cancelled before the first PUBREL" % cq, len(cn) == 1, where=where(ws[0]), function=lk.func,
                        construct="%s/PUBREC/cancel-before-pubrel" % lk.func,
